@@ -946,6 +946,60 @@ def _index_forms(model, rep):
             rep.ok(R4, cons, "the empty collection selects nothing")
 
 
+def _default_tags(model, rep):
+    """Mesh.with_defaults() names the sides of the bounding box; the tag
+    names are then one of the 'equivalent ways of naming a subset'.  Which
+    facets lie on a side must not depend on where the mesh lies nor on the
+    unit of length: every predicate handed to facets_satisfying in
+    _build_default_tags is evaluated over {position, translation-invariant
+    quantity} (skv/invariance.py).  np.isclose with its default rtol applies
+    a *relative* tolerance to the absolute coordinate: far from the origin
+    the accepted band exceeds the cell size and interior facets - in the end
+    all facets - are tagged 'left'."""
+    R4 = "C07-R4"
+    from ..invariance import AFF, make_evaluator
+    fn = model.cls("skfem.mesh.mesh", "Mesh").methods.get(
+        "_build_default_tags")
+    if fn is None:
+        raise AnalysisError("Mesh._build_default_tags not found")
+    defs = {}
+    for n in ast.walk(fn.node):
+        if isinstance(n, ast.Assign) and len(n.targets) == 1 and isinstance(
+                n.targets[0], ast.Name):
+            defs[n.targets[0].id] = n.value
+    lams = [c.args[0] for c in ast.walk(fn.node) if isinstance(c, ast.Call)
+            and src(c.func).endswith("_satisfying") and c.args
+            and isinstance(c.args[0], ast.Lambda)]
+    if len(lams) < 2:
+        raise AnalysisError(f"Mesh._build_default_tags: {len(lams)} "
+                            f"predicates found")
+    for k, lam in enumerate(lams):
+        par = lam.args.args[0].arg
+
+        def position(e, par=par):
+            return (isinstance(e, ast.Name) and e.id == par) or (
+                isinstance(e, ast.Attribute) and e.attr in ("p", "doflocs")
+                and src(e.value) == "self")
+
+        def known(e):
+            if isinstance(e, ast.Call) and src(e.func) in (
+                    "self.params", "self.param"):
+                return ("inv", 1)       # cell sizes
+            return None
+        v = make_evaluator(defs, position, known)(lam.body)
+        cons = f"Mesh._build_default_tags:predicate[{k}]:invariant"
+        if v == ("inv", 0):
+            rep.ok(R4, cons, "the side predicate is unchanged by a "
+                   "translation of the mesh and a change of unit")
+        else:
+            rep.fail(R4, fn.path, "Mesh._build_default_tags", cons,
+                     f"the predicate '{src(lam.body)[:60]}' depends on the "
+                     f"position of the mesh or the unit of length: {v[1]} - "
+                     f"MeshTri().refined(3).translated((1e5 / 3, 1e5 / 3))"
+                     f".with_defaults() tags 75 facets 'left' instead of 8",
+                     lam.lineno)
+
+
 def run(model: Model, rep, tier: str) -> None:
     rep.rule("C07-R1", "index sets derive from a table of their own kind / "
              "the argument; kinds without DOFs and interior DOFs of facet "
@@ -960,7 +1014,8 @@ def run(model: Model, rep, tier: str) -> None:
            lambda: _view_methods(model, rep), lambda: _dispatch(model, rep),
            lambda: _predicates(model, rep),
            lambda: _conditional_attributes(model, rep),
-           lambda: _index_forms(model, rep))
+           lambda: _index_forms(model, rep),
+           lambda: _default_tags(model, rep))
     from ..dgspace import report as _dg_report
     _dg_report(model, rep, "C07-R4", lambda n: n.endswith("_satisfying"),
                "the predicate is evaluated at garbage midpoints and the "
@@ -976,6 +1031,14 @@ _D = "skfem/assembly/dofs.py"
 _AB = "skfem/assembly/basis/abstract_basis.py"
 _M = "skfem/mesh/mesh.py"
 MUTANTS = [
+    ("default side tags compared with the default relative tolerance",
+     (_M, "                                                             dmin,\n"
+      "                                                             rtol=0.,\n",
+      "                                                             dmin,\n"),
+     "C07-R4"),
+    ("default side tags with an absolute tolerance of fixed size",
+     (_M, "        atol = np.min(self.params()) / 1e2\n",
+      "        atol = 1e-8\n"), "C07-R4"),
     ("facet selector accepts Python integers only",
      (_M, "        if isinstance(facets, (int, np.integer)):",
       "        if isinstance(facets, int):"), "C07-R4"),
@@ -1109,6 +1172,9 @@ MUTANTS = [
       "dtype=np.int32)"), "C07-R4"),
 ]
 TWINS = [
+    ("default side tags with a tolerance of a thousandth of the cell size",
+     (_M, "        atol = np.min(self.params()) / 1e2\n",
+      "        atol = np.min(self.params()) / 1e3\n")),
     ("facet selector tests the numeric ABC",
      (_M, "        if isinstance(facets, (int, np.integer)):",
       "        if isinstance(facets, (int, np.integer, np.int64)):")),
